@@ -1437,6 +1437,13 @@ class Macro:
             elif tok.token == "#":
                 if isinstance(self, MacroFunction):
                     self.has_strcat = True
+                    # The operand of # is used unexpanded: it does not make
+                    # its parameter need pre-expansion.
+                    if idx + 1 < len(self.replacement):
+                        res_tokens.append(tok)
+                        res_tokens.append(self.replacement[idx + 1])
+                        idx += 2
+                        continue
             elif isinstance(tok, Identifier):
                 arg_idx = self.which_arg(tok.token)
                 if arg_idx != -1:
